@@ -12,6 +12,20 @@
     and/or component templates are split into base + child (+ include) families must render, for
     real, exactly Run(Flat(P)); TLC evaluates the law's right-hand side and checks that Flat leaves
     no family node and is idempotent.
+    Partials: a second batch of families (`add_partials`) moves chunks - preferably chunks holding component tags
+    with a body - out of any template of the program (base or block override of the page's family or of an
+    extends-based component's family, plain templates, existing partials; at top level or inside fills, slots,
+    if / for / with / provide) into included templates and writes {% block %} tags inside the partial, inside the
+    fills / implicit bodies of the component tags there and beside them, named (mostly) like blocks of the INCLUDING
+    family.  By the specification an include is inlined with NO overrides (DjcFamilies!Inline), so each such block
+    stands for its own content; TLC also checks PartialBlockNamesIrrelevant (renaming every block of the included
+    templates leaves Flat(P) unchanged).  In that batch nearly every inject() has a default value (otherwise more
+    than half of the programs end in the KeyError of an inject() without provider and compare no output).
+    Left out of the partials (said here, not loosened elsewhere): chunks holding {{ block.super }} (it has no
+    meaning in an included template); chunks holding a default alias whose {% fill default=.. %} stays outside,
+    and {% block %} tags around a default alias - the open finding `default-alias-inside-block-override`
+    (DESIGN 9.5) is keyed by the lexical shape "default alias inside a block", which the partials must neither
+    widen nor hide; a block name is used once per template (Django refuses duplicates at compile time).
 """
 from __future__ import annotations
 
@@ -257,7 +271,8 @@ def add_partials(rnd: random.Random, q: Dict[str, Any]) -> Dict[str, Any]:
     every = _block_names([n for _, roots in fams for r in roots for n in r])
     made = 0
     for _ in range(rnd.choice([1, 1, 2, 3])):
-        label, roots = rnd.choice(fams)
+        # (families with blocks of their own - extends-based pages / components - are taken three times as often)
+        label, roots = rnd.choice([f for f in fams for _w in range(3 if len(f[1]) > 1 else 1)])
         names = _block_names([n for r in roots for n in r])
         cands = [(lst, k) for r in roots for lst, k, _b in _positions(r)
                  if lst[k]["t"] not in ("block", "super", "include", "defref") and not _has(lst[k], {"super"})
@@ -275,7 +290,7 @@ def add_partials(rnd: random.Random, q: Dict[str, Any]) -> Dict[str, Any]:
         spots = [(l2, k2, b2) for l2, k2, b2 in _positions(holder)
                  if l2[k2]["t"] not in ("block", "super", "include", "fill") and not _has(l2[k2], {"defref"})]
         inside = [s for s in spots if s[2]]
-        picks = [rnd.choice(inside)] if inside else []
+        picks = [rnd.choice(inside) for _w in range(rnd.randint(1, 3))] if inside else []
         picks += [s for s in spots if rnd.random() < 0.15]
         fresh = 0
         done = set()
@@ -577,6 +592,12 @@ def body(chk: Check, *, n_stock: int, n_fam: int, deep: int, n_part: int = 0) ->
     for i in range(n_part):
         p = g.program(2 * 10 ** 5 + i, P.MODES[i % 2])
         p["block_names_collide"] = i % 10 == 9
+        # (most generated programs end in the KeyError of an inject() without provider and compare no output: here
+        #  nearly every inject() gets a default value)
+        for c in p["comps"]:
+            for d in c["data"]:
+                if d["k"] in ("inject", "injkeys") and not d["dflt"] and rnd.random() < 0.9:
+                    d["dflt"] = "dflt"
         fam.append(add_partials(rnd, family_program(rnd, p)))
     expf = djc.oracle(fam, module="Eval_Fam")
     chk.add("states", djc.oracle.last_states)
@@ -635,7 +656,9 @@ def run(tier: str) -> int:
     chk.cov["exhaustive"] = False
     chk.cov["rule"] = ("seeded stock templates/families (text, var, if/for/with, include, extends/block/block.super + opaque built-ins, "
                        "engine.debug on/off) rendered by patched and original Template internals; seeded component programs split into "
-                       "base+child(+include) families compared with Run(Flat(P)) evaluated by TLC. Distinct by content.")
+                       "base+child(+include) families compared with Run(Flat(P)) evaluated by TLC; a further batch with chunks (component tags "
+                       "with bodies) moved into included partials that hold blocks named like the including family's blocks, inside "
+                       "and beside the component bodies. Distinct by content.")
     chk.assumptions += ["multiline_tags=True (default): sources with a newline between an opening delimiter and its closer are a documented "
                         "deviation and are not generated; block tags have balanced quotes and no quoted closer",
                         "templates are served by the locmem loader"]
@@ -691,12 +714,27 @@ def selftest(tier: str) -> int:
             return [t for t in orig(src) if not (t.token_type.name == "TEXT" and not t.contents.strip())]
         return patch(mp, "parse_template", pt)
 
+    def fills_remember_closest_block_context_layer():
+        # fills resolve their {% block %} tags against the closest render-context layer that HAS block overrides
+        # instead of the layer of the template they are written in (walks through the layer of an {% include %})
+        orig = dc.resolve_fills
+
+        def rf(context, nodelist, component_name):
+            slots = orig(context, nodelist, component_name)
+            layers = context.render_context.dicts
+            idx = next((k for k in range(len(layers) - 1, -1, -1) if "block_context" in layers[k]), None)
+            for s in slots.values():
+                s._djc_render_ctx_layer = layers[-1 if idx is None else idx]
+            return slots
+        return patch(dc, "resolve_fills", rf)
+
     # (a probe forcing component / fill templates to an isolated render context lands entirely inside the
     # shape-keyed known findings about blocks in component bodies and is therefore not listed)
     return run_probes(PID, [("render-context-never-isolated", render_context_never_isolated),
                             ("render-leaves-a-render-context-layer", render_leaves_a_render_context_layer),
-                            ("lexer-drops-whitespace-only-text", lexer_drops_whitespace_only_text)],
-                      lambda chk: body(chk, n_stock=1200, n_fam=1200, deep=3))
+                            ("lexer-drops-whitespace-only-text", lexer_drops_whitespace_only_text),
+                            ("fills-remember-closest-block-context-layer", fills_remember_closest_block_context_layer)],
+                      lambda chk: body(chk, n_stock=1200, n_fam=1200, deep=3, n_part=400))
 
 
 def replay(path: str) -> int:
